@@ -1,4 +1,4 @@
-(* Model of dvc_data/index/checkout.py (as of /repo bc9d16e, i.e. after fix d2d7c8a):
+(* Model of dvc_data/index/checkout.py (as of /repo f4a117d, i.e. after fixes d2d7c8a, 8c795c3, ed61977):
    compare / _compare / apply / _delete_files / _delete_dirs / _create_dirs / _create_files /
    _chmod_files, over an abstract workspace, with the old index = image of the workspace as
    index/build.py:build + index/save.py:md5 produce it.
@@ -149,10 +149,18 @@ Definition add_delete (e : ientry) : list action :=
 
 (* the body of `for change in idiff(...)`; the AssertionError cases yield [] (not reachable from
    diff without with_renames/with_unknown) *)
-Definition compare_change (relink delete : bool) (typ : ichange) (old new : option ientry) : list action :=
+Definition compare_change (relink delete : bool) (typ : ichange) (old new : option ientry) (new_has_node : bool)
+  : list action :=
   match typ with
   | ichange_ADD => match new with Some e => add_create e | None => [] end
-  | ichange_DELETE => if delete then match old with Some e => add_delete e | None => [] end else []
+  | ichange_DELETE =>
+      if delete then
+        match old with
+        | Some e => if e_isdir e && new_has_node then []   (* still an implicit directory of new (ed61977) *)
+                    else add_delete e
+        | None => []
+        end
+      else []
   | ichange_UNCHANGED =>
       if relink then
         (match old with Some e => if e_isdir e then [] else [AFilesDelete e] | None => [] end)
@@ -173,14 +181,15 @@ Definition compare_change (relink delete : bool) (typ : ichange) (old new : opti
 Definition is_none {A} (o : option A) : bool := match o with None => true | Some _ => false end.
 
 (* one key of the union: _diff's loop body (typ, UNCHANGED filter) + _compare's branch *)
-Definition change_actions (relink delete : bool) (k : key) (o : option node) (t : option tentry) : list action :=
+Definition change_actions (relink delete : bool) (k : key) (o : option node) (t : option tentry) (hn : bool)
+  : list action :=
   let oe := match o with Some n => old_entry k n | None => None end in
   let ne := option_map (new_entry k) t in
   if is_none oe && is_none ne then []
   else
     let typ := diff_entry oe ne false false (Some cmpk) false in
     if ichange_eqb typ ichange_UNCHANGED && negb relink then []
-    else compare_change relink delete typ oe ne.
+    else compare_change relink delete typ oe ne hn.
 
 Definition akey (e : ientry) : key := match e_key e with Some k => k | None => [] end.
 (* ObjectStorage.get: `if not entry.hash_info: raise ValueError`, else the object named by the value *)
@@ -193,11 +202,14 @@ Definition acontent (e : ientry) : option bytes :=
 Definition is_dirs_create_in (failed : list key) (a : action) : bool :=
   match a with ADirsCreate e => mem_key (akey e) failed | _ => false end.
 
+(* pygtrie has_node(key) for a key without a value: some key of the index lies strictly below it *)
+Definition has_node (t : target) (k : key) : bool := existsb (fun kv => strict_prefix k (fst kv)) t.
+
 (* compare(): _compare, then failed directories leave dirs_create *)
 Definition compare (relink delete : bool) (old : ws) (tr : trees) (t : target) : list action * list key :=
   let '(t', failed) := expand tr t in
   let keys := dedup (map fst old ++ map fst t') in
-  let acts := flat_map (fun k => change_actions relink delete k (lookup old k) (lookup t' k)) keys in
+  let acts := flat_map (fun k => change_actions relink delete k (lookup old k) (lookup t' k) (has_node t' k)) keys in
   (filter (fun a => negb (is_dirs_create_in failed a)) acts, dedup failed).
 
 Definition files_delete (p : list action) : list key :=
@@ -300,8 +312,14 @@ Definition create_file (lt : link) (avail : list bytes) (w : ws) (kc : key * opt
       end
   end.
 
+(* 8c795c3: `for parent in {fs.parent(dest) ...}: fs.makedirs(parent, exist_ok=True)` for the entries that
+   have a source path (hash-less entries were dropped with a ValueError before) *)
+Definition make_parents (l : list (key * option bytes)) (w : ws) : ws :=
+  fold_left (fun w kc => match snd kc with Some _ => makedirs (parent (fst kc)) w | None => w end) l w.
+
 Definition create_files (lt : link) (avail : list bytes) (l : list (key * option bytes)) (w : ws) : ws * errs :=
-  fold_left (fun acc kc => let '(w1, e1) := create_file lt avail (fst acc) kc in (w1, snd acc ++ e1)) l (w, []).
+  fold_left (fun acc kc => let '(w1, e1) := create_file lt avail (fst acc) kc in (w1, snd acc ++ e1)) l
+            (make_parents l w, []).
 
 (* os.chmod(path, st_mode | S_IEXEC) *)
 Definition set_exec_shared (c : bytes) (w : ws) : ws :=
@@ -390,5 +408,5 @@ Definition typ_of_code (c : N) : ichange :=
   | 1 => ichange_ADD | 2 => ichange_MODIFY | 3 => ichange_RENAME | 4 => ichange_DELETE
   | 5 => ichange_UNCHANGED | _ => ichange_UNKNOWN
   end.
-Definition enc_branch (relink delete : bool) (t : N) (old new : option ientry) : val :=
-  enc_plan (compare_change relink delete (typ_of_code t) old new, []).
+Definition enc_branch (relink delete : bool) (t : N) (old new : option ientry) (hn : bool) : val :=
+  enc_plan (compare_change relink delete (typ_of_code t) old new hn, []).
